@@ -39,10 +39,15 @@ type cfgParams struct {
 	Pkgs   []cfgPkg `json:"pkgs"`
 	Req    []cfgReq `json:"requested"`
 	EnvSet bool     `json:"env_set"` // the names after each '$' are environment variables (else unset)
+	// Dart: per requested key, whether it also has a dart action (the Dart
+	// files of all such keys are written together under one directory);
+	// DartOnly runs the command with -dart-only (only the dart actions run)
+	Dart     []bool `json:"dart,omitempty"`
+	DartOnly bool   `json:"dart_only,omitempty"`
 }
 
 var cfgOuters = []string{"w", "work$old", "$x", "w$1/src", "o$$", "work${old}er", "lib$v2", "go$path/src", "$HOME/src", "a$b", "${u}x", "pre$", "it's", "dépôt", "50%", "w~1", "#tmp", "semi;colon", "amp&and", "(paren)", "star*", "q?", "[br]", "back\\slash", "tab\there", "new line", "=eq", "@at", "-dash", "+plus", ",comma", "{a,b}", "!bang", "\"quote\"", "<lt>", "|pipe", "`tick`"}
-var cfgDirs = []string{"", "plain", "_legacy", "sub/deep", "x.y", "v2", "_a/_b", "testdata/in", "internal/core", "vendor_x", "UPPER", "a-b", "a~b", "a+b"}
+var cfgDirs = []string{"", "plain", "api", "api2", "api/v1", "apix", "ap", "_legacy", "sub/deep", "x.y", "v2", "_a/_b", "testdata/in", "internal/core", "vendor_x", "UPPER", "a-b", "a~b", "a+b"}
 var cfgFiles = []string{"types.go", "types$v2.go", "a$b.go", "m.go", "z$.go", "it's.go", "a b.go", "é.go", "x_test_data.go", "a,b.go", "50%.go", "semi;.go", "UP.go", "a=b.go", "b$HOME.go", "c$PATH$.go", "d$$.go", "e$1.go",
 	// (one name the go command refuses as a source file: such layouts are void, see the gate below)
 	"#h.go"}
@@ -70,6 +75,43 @@ func generateConfig(r *kernel.Rand) *cfgParams {
 	for n := r.Range(1, 4); len(c.Req) < n; {
 		pi := r.Intn(len(c.Pkgs))
 		c.Req = append(c.Req, cfgReq{Pkg: pi, File: r.Intn(len(c.Pkgs[pi].Files)), Spelling: kernel.Pick(r, []string{"abs", "rel", "rel"})})
+	}
+	if r.Chance(1, 4) {
+		// a long configuration: more packages (prefix siblings among them),
+		// every file of every package requested
+		many := []string{"f0.go", "f1.go", "f2.go", "g.go", "h.go", "z.go"}
+		if r.Chance(1, 2) {
+			// nothing but prefix siblings, each with many files
+			c.Pkgs, used = nil, map[string]bool{}
+		}
+		for _, d := range []string{"api", "api2", "api/v1", "ap", "apix"} {
+			if !used[d] && len(c.Pkgs) < 5 && r.Chance(2, 3) {
+				used[d] = true
+				c.Pkgs = append(c.Pkgs, cfgPkg{Dir: d, Files: many[:r.Range(2, len(many))]})
+			}
+		}
+		if len(c.Pkgs) == 0 {
+			c.Pkgs = append(c.Pkgs, cfgPkg{Dir: "api", Files: many[:3]})
+		}
+		c.Req = nil
+		sp := kernel.Pick(r, []string{"abs", "rel"})
+		for pi, pk := range c.Pkgs {
+			for fi := range pk.Files {
+				c.Req = append(c.Req, cfgReq{Pkg: pi, File: fi, Spelling: sp})
+			}
+		}
+	}
+	if r.Chance(1, 3) {
+		any := false
+		for range c.Req {
+			d := r.Chance(1, 2)
+			any = any || d
+			c.Dart = append(c.Dart, d)
+		}
+		if !any {
+			c.Dart[r.Intn(len(c.Dart))] = true
+		}
+		c.DartOnly = r.Chance(1, 2)
 	}
 	return c
 }
@@ -185,9 +227,13 @@ func executeConfig(env *kernel.Env, c *cfgParams, out *kernel.Outcome) {
 	must(os.MkdirAll(outDir, 0o755))
 	must(os.MkdirAll(filepath.Join(base, "home"), 0o755))
 	conf := map[string][]map[string]string{}
-	type want struct{ key, output, typ string }
+	type want struct {
+		key, output, typ string
+		dart             bool
+		abs              string
+	}
 	var wants []want
-	for _, rq := range c.Req {
+	for ri, rq := range c.Req {
 		pk := c.Pkgs[rq.Pkg]
 		rel := filepath.Join(filepath.FromSlash(pk.Dir), pk.Files[rq.File])
 		key := rel
@@ -199,7 +245,16 @@ func executeConfig(env *kernel.Env, c *cfgParams, out *kernel.Outcome) {
 		}
 		o := filepath.Join(outDir, fmt.Sprintf("o_%d.go", len(wants)))
 		conf[key] = []map[string]string{{"Mode": "go/randdata", "Output": o}}
-		wants = append(wants, want{key, o, cfgTypeName("", rq.Pkg, rq.File)})
+		dart := ri < len(c.Dart) && c.Dart[ri]
+		if dart {
+			conf[key] = append(conf[key], map[string]string{"Mode": "dart", "Output": filepath.Join(outDir, "unused.dart")})
+		}
+		wants = append(wants, want{key, o, cfgTypeName("", rq.Pkg, rq.File), dart, filepath.Join(realRoot, rel)})
+	}
+	dartDir := filepath.Join(outDir, "dart")
+	if len(c.Dart) > 0 {
+		must(os.MkdirAll(dartDir, 0o755))
+		conf["_dart"] = []map[string]string{{"Output": dartDir}}
 	}
 	cb, _ := json.MarshalIndent(conf, "", " ")
 	confFile := filepath.Join(base, "conf.json")
@@ -240,7 +295,12 @@ func executeConfig(env *kernel.Env, c *cfgParams, out *kernel.Outcome) {
 			return
 		}
 	}
-	cmd := exec.Command(bin, "-config", confFile)
+	cmdArgs := []string{"-config", confFile}
+	if c.DartOnly {
+		cmdArgs = []string{"-config", "-dart-only", confFile}
+		out.Fault("config_dart_only")
+	}
+	cmd := exec.Command(bin, cmdArgs...)
 	cmd.Dir = realRoot
 	cmd.Env = envv
 	var buf bytes.Buffer
@@ -275,7 +335,62 @@ func executeConfig(env *kernel.Env, c *cfgParams, out *kernel.Outcome) {
 			Detail:    fmt.Sprintf("gomacro -config fails (%v) although every configured file exists and its package type-checks\n%s", err, describe())}
 		return
 	}
+	// the root the command announces (and hands to the Dart linker): an
+	// existing directory, ancestor of every configured file
+	if _, after, found := strings.Cut(buf.String(), "Root directory: "); found {
+		root, _, _ := strings.Cut(after, "\n")
+		// (a directory name may itself contain a newline: judge only a root that
+		// is a prefix of the module root or lies inside it)
+		if !strings.Contains(realRoot, "\n") {
+			st, serr := os.Stat(root)
+			if serr != nil || !st.IsDir() {
+				out.Violation = &kernel.Violation{Property: "C17", Clause: "root_not_an_existing_directory", Signature: fmt.Sprintf("config outer=%q", c.Outer),
+					Detail: fmt.Sprintf("the command announces the root %q, which is not an existing directory (%v)\n%s", root, serr, describe())}
+				return
+			}
+			for _, w := range wants {
+				if !isAncestor(root, w.abs) && filepath.Clean(root) != filepath.Dir(w.abs) {
+					out.Violation = &kernel.Violation{Property: "C17", Clause: "root_not_an_ancestor", Signature: fmt.Sprintf("config %d keys", len(wants)),
+						Detail: fmt.Sprintf("the command announces the root %q, which is not an ancestor of the configured file %s\n%s", root, w.abs, describe())}
+					return
+				}
+			}
+		}
+	}
+	if len(c.Dart) > 0 {
+		out.Fault("config_dart_actions")
+		var all strings.Builder
+		ents, _ := os.ReadDir(dartDir)
+		for _, e := range ents {
+			if b, rerr := os.ReadFile(filepath.Join(dartDir, e.Name())); rerr == nil {
+				all.Write(b)
+			}
+		}
+		// (one file may be configured under two spellings: it has a dart action
+		// when one of its keys has)
+		dartType := map[string]bool{}
+		for _, w := range wants {
+			dartType[w.typ] = dartType[w.typ] || w.dart
+		}
+		for _, w := range wants {
+			has := strings.Contains(all.String(), "class "+w.typ+" ")
+			w.dart = dartType[w.typ]
+			if w.dart && !has {
+				out.Violation = &kernel.Violation{Property: "C17", Clause: "output_not_from_the_requested_file", Signature: fmt.Sprintf("config dart key=%q", filepath.Base(w.key)),
+					Detail: fmt.Sprintf("the key %q has a dart action but no Dart file declares the class %s of that file\nDart files:\n%s\n%s", w.key, w.typ, all.String(), describe())}
+				return
+			}
+			if !w.dart && has {
+				out.Violation = &kernel.Violation{Property: "C17", Clause: "output_not_from_the_requested_file", Signature: fmt.Sprintf("config dart key=%q", filepath.Base(w.key)),
+					Detail: fmt.Sprintf("the key %q has no dart action but a Dart file declares the class %s of that file\n%s", w.key, w.typ, describe())}
+				return
+			}
+		}
+	}
 	for _, w := range wants {
+		if c.DartOnly {
+			break // only the dart actions run
+		}
 		b, rerr := os.ReadFile(w.output)
 		if rerr != nil {
 			out.Violation = &kernel.Violation{Property: "C17", Clause: "configured_file_not_generated",
